@@ -324,6 +324,15 @@ func pairOps(keys []int) []seq.Op[*pair] {
 				return "", ""
 			}})
 		}
+		for _, addToFree := range []bool{true, false} {
+			addToFree := addToFree
+			o = append(o, seq.Op[*pair]{Name: fmt.Sprintf("%s.Clear(%v)", side, addToFree), Step: func(s *pair) (string, string) {
+				t, m := pick(s)
+				t.Clear(addToFree)
+				m.its = nil
+				return "", ""
+			}})
+		}
 		o = append(o, seq.Op[*pair]{Name: side + ".DeleteMin", Step: func(s *pair) (string, string) {
 			t, m := pick(s)
 			var want *item
